@@ -588,7 +588,7 @@ func TestCWorldRandom(t *testing.T) {
 }
 
 func runCScenario(t *testing.T, ops *opsWriter, rng *rand.Rand, steps int, hostile bool) {
-	synctest.Test(t, func(t *testing.T) {
+	bubble(t, func(t *testing.T) {
 		cfg := cCfg{settings: rng.Intn(6) != 0, disable: rng.Intn(8) == 0}
 		r := startC(t, ops, cfg)
 		defer r.teardown()
